@@ -734,7 +734,6 @@ Proof.
     - intros g0 Hg0. apply in_app_iff in Hg0 as [Hg0|[<-|[]]]; [pose proof (H2 g0 Hg0); lia | cbn; lia].
     - rewrite map_app. apply NoDup_snoc_gen; [exact H3|]. intros Hi. apply in_map_iff in Hi as [y [Hy Hi]]. apply (Hk y Hi). exact Hy.
     - intros m Hm. pose proof (H4 m Hm). lia.
-    - intros g' Hg'. rewrite W. apply (H5 g' Hg').
     - intros Hd'. rewrite Hd in Hd'. discriminate.
     - lia. }
   assert (HF : FIx (g_gid g) s2).
@@ -785,7 +784,11 @@ Proof.
   assert (D1 : s_down s1 = false). { subst s1. destruct (find_key s r tok); [|exact Hd]. unfold stop. destruct (find_reg s _); exact Hd. }
   assert (H2 : FI None (flush_cancels s1)) by (apply FI_flush; apply (FI_drop_ex (r, tok)); assumption).
   destruct obs as [[| |]|]; try (apply plain_FI; exact H2).
-  apply accept_FI; [exact H2 | exact D1|]. intros g0 Hg0. apply K1. unfold flush_cancels in Hg0. fsimpl.
+  assert (D2 : s_down (flush_cancels s1) = false).
+  { unfold flush_cancels. fsimpl. assert (G : forall l s0, s_down (fold_left cancel_cb l s0) = s_down s0).
+    { induction l as [|c l IHl]; intros s0; cbn [fold_left]; [reflexivity|]. rewrite IHl. reflexivity. }
+    rewrite G. exact D1. }
+  apply accept_FI; [exact H2 | exact D2|]. intros g0 Hg0. apply K1. unfold flush_cancels in Hg0. fsimpl.
   assert (G : forall l s0, s_regs (fold_left cancel_cb l s0) = s_regs s0).
   { induction l as [|c l IHl]; intros s0; cbn [fold_left]; [reflexivity|]. rewrite IHl. reflexivity. }
   rewrite G in Hg0. exact Hg0.
